@@ -24,8 +24,8 @@ type pRec struct {
 }
 
 type pStore struct {
-	recs    map[string]*pRec
-	order   []string // deterministic iteration
+	keys    []string // parallel slices instead of a map: keys may be symbolic strings
+	vals    []*pRec
 	calls   int
 	faultAt int // -1: never
 	fired   bool
@@ -33,7 +33,16 @@ type pStore struct {
 	faultLazy bool
 }
 
-func pNewStore() *pStore { return &pStore{recs: map[string]*pRec{}, faultAt: -1} }
+func pNewStore() *pStore { return &pStore{faultAt: -1} }
+
+func (s *pStore) find(path string) int {
+	for i, k := range s.keys {
+		if k == path {
+			return i
+		}
+	}
+	return -1
+}
 
 func (s *pStore) fault() bool {
 	i := s.calls
@@ -59,10 +68,11 @@ func (s *pStore) Get(ctx context.Context, path string) (keyvalue.FileRecord, err
 	if s.fault() {
 		return nil, pErrInjected
 	}
-	r, ok := s.recs[path]
-	if !ok {
+	idx := s.find(path)
+	if idx < 0 {
 		return nil, hackpadfs.ErrNotExist
 	}
+	r := s.vals[idx]
 	var getData func() (blob.Blob, error)
 	var getDirNames func() ([]string, error)
 	if r.mode.IsDir() {
@@ -93,8 +103,8 @@ func (s *pStore) dirNames(dir string) []string {
 		prefix = ""
 	}
 	var names []string
-	for _, k := range s.order {
-		if _, ok := s.recs[k]; !ok || k == "." {
+	for _, k := range s.keys {
+		if k == "." {
 			continue
 		}
 		if strings.HasPrefix(k, prefix) && !strings.Contains(k[len(prefix):], "/") {
@@ -109,7 +119,10 @@ func (s *pStore) Set(ctx context.Context, path string, src keyvalue.FileRecord) 
 		return pErrInjected
 	}
 	if src == nil {
-		delete(s.recs, path)
+		if i := s.find(path); i >= 0 {
+			s.keys = append(s.keys[:i:i], s.keys[i+1:]...)
+			s.vals = append(s.vals[:i:i], s.vals[i+1:]...)
+		}
 		return nil
 	}
 	rec := &pRec{mode: src.Mode(), modTime: src.ModTime()}
@@ -120,9 +133,11 @@ func (s *pStore) Set(ctx context.Context, path string, src keyvalue.FileRecord) 
 		}
 		rec.data = data
 	}
-	if _, ok := s.recs[path]; !ok {
-		s.order = append(s.order, path)
+	if i := s.find(path); i >= 0 {
+		s.vals[i] = rec
+	} else {
+		s.keys = append(s.keys, path)
+		s.vals = append(s.vals, rec)
 	}
-	s.recs[path] = rec
 	return nil
 }
